@@ -266,13 +266,19 @@ def embedLabelDelta (s : St) (id base size : Nat) : Res :=
       | _, _ => done (appendBytes { s with relocs := s.relocs + 1 } (zeros size))
   | _, _ => report s Err.invalidLabel
 
-/-- `BaseAssembler::embed_const_pool(label, pool)` (after fix C14-12: an already bound label is refused *before* the alignment is
-emitted): validity, bound test, `align(kData, pool.alignment())`, `bind(label)`, the pool bytes.  `data` = `pool.fill()`. -/
+/-- `Support::align_up(offset(), max(alignment, 1))` -/
+def alignedOffset (s : St) (alignment : Nat) : Nat :=
+  if alignment ≤ 1 then s.offset else s.offset + (alignment - s.offset % alignment) % alignment
+
+/-- `BaseAssembler::embed_const_pool(label, pool)`: validity; bound test (fix C14-12); the bind is validated for the *aligned* offset
+(`CodeHolder::_validate_label_fixups`, fix C14-14) - all before `align(kData, pool.alignment())` writes the padding; then `bind(label)` and
+the pool bytes.  `data` = `pool.fill()`. -/
 def embedConstPool (s : St) (id alignment : Nat) (data : Bytes) : Res :=
   match s.labels[id]? with
   | none => report s Err.invalidLabel
   | some le =>
     if le.bound.isSome then report s Err.labelAlreadyBound
+    else if (s.pending.filter (·.label = id)).any (unpatchable s.cur (alignedOffset s alignment)) then report s Err.invalidDisplacement
     else
       let r1 := align s 1 alignment
       if r1.code ≠ Err.ok then r1
@@ -393,16 +399,5 @@ def handled (s : St) : List Op → List Nat
   | op :: ops =>
     let r := step s op
     (if r.reported ∧ r.st.handler ≠ .none then [r.code] else []) ++ handled r.st ops
-
-/-- the class of the residual finding C14-K1: an `embed_const_pool` whose label has a pending fixup that the bind inside it cannot
-reach - the alignment padding has been appended when `bind` refuses (a plain `bind` is atomic since fix C14-13) -/
-def bindOverflows (s : St) : Op → Bool
-  | .embedConstPool id a d => (step s (.embedConstPool id a d)).code == Err.invalidDisplacement
-  | _ => false
-
-/-- no op of the history is in the class of finding C14-K1 -/
-def noBindOverflow (s : St) : List Op → Bool
-  | [] => true
-  | op :: ops => !bindOverflows s op && noBindOverflow (step s op).st ops
 
 end AsmjitVerif.Emitter
